@@ -233,7 +233,7 @@ def main(tier):
             res = tlc.run("MC_RopeHistory", cfg, on_tagged=lambda t, v, got=got: got.append(v), collect_tags=False)
         else:
             tlc.write_cfg(cfg, constants=consts, invariants=c11.INVARIANTS + ["Export"])
-            res = tlc.run("MC_RopeHistory", cfg, simulate={"num": max(1, num // 16)}, depth=60, seed=common.SEED + 12,
+            res = tlc.run("MC_RopeHistory", cfg, simulate={"num": max(1, num // 16)}, depth=32, seed=common.SEED + 12,
                           on_tagged=lambda t, v, got=got: got.append(v), collect_tags=False)
         os.unlink(cfg)
         print("TLC RopeHistory[%s]:" % name, res.summary(), "behaviours:", len(got))
